@@ -31,6 +31,8 @@ TECHNIQUE += '; colour policy table: Color.enabled interpreted over override x N
 LEVEL_TEXT += ' Added clause: the documented priority of the colour policy, with a stderr policy looking at stderr only.'
 TECHNIQUE += "; repr -> from_raw/parse_fmt with stored specs whose fill character is the wrapper's separator"
 LEVEL_TEXT += ' Added clause: the stored format spec and the text survive repr also when the fill is a colon.'
+TECHNIQUE += '; render - derive - render against a never-rendered twin for every modifier'
+LEVEL_TEXT += ' Added clause: rendering keeps no state that a modifier fails to invalidate.'
 LEVEL_NOTE = 'Trusted: format(text, spec) of the standard library; re semantics as parsed by re._parser.'
 EXPLANATION = ('Static analysis of /repo sources, TatSu not imported. Style.apply / apply_style / from_raw are interpreted by the '
                'whitelisted evaluator on checker-built style objects; regex literals of tatsu/util/tty.py are recompiled by the checker.')
